@@ -19,6 +19,8 @@ CHECKS = {
     "C04": ("S", "§5 C04", "instant-end reference predicate: no servable head request stays pending"),
     "C05": ("S", "§5 C05", "grant-order monitor: no grant while a request with a smaller (priority, arrival) key waits"),
     "C06": ("S", "§5 C06", "possible-worlds FIFO/LIFO/filter reference incl. cancellation of granted retrievals"),
+    "C07": ("S", "§5 C07", "every ill-formed call in every reachable state raises RuntimeError and leaves the canonical state unchanged (fork probe)"),
+    "C11": ("S", "§5 C11", "can_put/can_get vs. probe reservation in a fork of every state; delay exactness from the ledger; drain probe"),
     "C14": ("S", "§5 C14", "fleet batch / round-trip clauses from load times and observed availability times"),
 }
 NA_REASON = "check not built yet in this session (planned: see DESIGN.md §5); not claimed until it runs silent on the unchanged tree"
